@@ -36,7 +36,7 @@ EXPLANATION = (
     "from EXPRESSparse/EXPRESSresolve; (R6) results of resolver lookups are null-tested before use; (R8) in the statement "
     "resolver each call that resolves a nested statement (list, case item) is unconditional or guarded by an idiom that implies an "
     "error was already reported (the guarding expression failed to resolve; no label of a labelled case item resolved). "
-    "Not decided: that each malformed schema reaches its detection branch; agreement on warnings.")
+    "(R9) a pending USE/REFERENCE item is matched under the key it is stored under. (R10) when a look-up wrapper's optional \"search subtypes too\" request parameter is NULL, every reachable call passes NULL for the callee's search-mode parameter (mode parameters discovered as NULL-tested parameters guarding recursive search calls). Not decided: that each malformed schema reaches its detection branch; agreement on warnings.")
 
 STAGES = ["EXPRESSparse", "EXPRESSresolve"]
 DUMP_CODES = {"BAIL_OUT", "CORRUPTED_TYPE"}
